@@ -545,3 +545,71 @@ package io
 
 // ---- the scalar decode handlers: one cell per kind, each wired to its own routine (C06, C01) ---
 //@ rule decode_cells prop=C06,C01
+
+// ---- encoder reuse (C14) and flushing (C03) -----------------------------------------------------
+
+//@ func (*Encoder).ResetBuffer
+//@   prop C14 C03
+//@   nopanic
+//@   requires enc != nil
+//@   modifies enc.buf, enc.off, enc.Error
+//@   ensures [nothing_buffered_nothing_flushed_no_error] result == enc && len(enc.buf) == 0 && enc.off == 0 && enc.Error == nil
+
+//@ func (*encoderRefer).Reset
+//@   prop C14
+//@   havoc
+//@   requires r != nil
+//@   ensures [numbering_restarts] r.last == 0
+
+//@ func (*encoderRefer).AddCount
+//@   prop C02
+//@   nopanic
+//@   requires r != nil && count >= 0
+//@   modifies r.last
+//@   ensures [skips_count_numbers] r.last == old(r.last) + count
+
+//@ func (*Encoder).IsSimple
+//@   prop C14
+//@   nopanic
+//@   requires enc != nil
+//@   ensures result == enc.simple
+
+//@ func (*Encoder).Reset
+//@   prop C14
+//@   havoc
+//@   requires enc != nil
+//@   stable enc.simple
+//@   ensures [class_numbering_restarts] result == enc && enc.last == 0
+//@   ensures [reference_numbering_restarts_in_reference_mode] !enc.simple ==> enc.refer.last == 0
+
+//@ func (*Encoder).Simple
+//@   prop C14
+//@   havoc
+//@   requires enc != nil
+//@   ensures [mode_set_and_numbering_restarted] result == enc && enc.simple == simple && enc.last == 0 && (!simple ==> enc.refer.last == 0)
+
+// an encoder goes back to the pool in reference mode with numbering at zero, nothing buffered,
+// nothing marked as flushed and no error
+//@ func FreeEncoder
+//@   prop C14
+//@   havoc
+//@   requires encoder != nil
+//@   atcall Put [encoder_is_clean_when_it_returns_to_the_pool] !encoder.simple && encoder.last == 0 && encoder.refer.last == 0 &&
+//@       len(encoder.buf) == 0 && encoder.off == 0 && encoder.Error == nil
+
+// Bytes: a private copy of what was written (never the pooled buffer itself)
+//@ func (*Encoder).Bytes
+//@   prop C14 C03
+//@   nopanic
+//@   requires enc != nil
+//@   ensures [copy_of_the_buffer] len(result) == len(enc.buf) && forall(i, 0, len(result), result[i] == enc.buf[i])
+//@   ensures [result_never_aliases_the_pooled_buffer] isnew(arr(result))
+
+// Flush: hands the writer exactly the part of the buffer it has not seen yet, and marks it seen
+//@ func (*Encoder).Flush
+//@   prop C03
+//@   havoc
+//@   requires enc != nil && 0 <= enc.off && enc.off <= len(enc.buf)
+//@   stable enc.buf, enc.off, enc.Writer, enc.Error
+//@   ensures [everything_is_flushed] enc.Error == nil && enc.Writer != nil ==> enc.off == len(enc.buf)
+//@   ensures [an_earlier_error_is_reported_and_nothing_written] old(enc.Error) != nil ==> same(err, old(enc.Error)) && enc.off == old(enc.off)
